@@ -53,3 +53,39 @@ func TestFinding_F15b_NoZeroEventAfterClose(t *testing.T) {
 		t.Fatalf("expected exactly the one emitted message on the port, got %d", n)
 	}
 }
+
+// F-15c: the shutdown sequence of cmd/hidi/main.go. SIGINT cancels the context; the manager then ends every device, whose
+// ProcessEvents emits the Note Off of every note still held; main closes the channel afterwards. Everything the devices
+// emitted must reach the port, and the devices must not block.
+func TestFinding_F15c_ShutdownCleanupReachesThePort(t *testing.T) {
+	out := &fakeOut{c: make(chan []byte, 64)}
+	in := &fakeIn{c: make(chan []byte)}
+	ctx, cancel := context.WithCancel(context.Background())
+	evs := make(chan Event, 8) // as in main.go
+	inEvs := make(chan Event, 8)
+	score := Score{}
+	ProcessMidiEvents(ctx, driver.Port{Input: in, Output: out}, evs, inEvs, &score)
+	evs <- NoteEvent(NoteOn, 0, 60, 64)
+	<-out.c
+	cancel() // SIGINT
+	time.Sleep(100 * time.Millisecond)
+	emitted := 0
+	for note := uint8(60); note < 70; note++ { // the clean-up of a device holding ten notes
+		select {
+		case evs <- NoteEvent(NoteOff, 0, note, 0):
+			emitted++
+		case <-time.After(time.Second):
+			t.Fatalf("the device blocked after %d of its 10 clean-up Note Offs: nobody reads the output channel any more", emitted)
+		}
+	}
+	close(evs) // main: close(midiEventsOut) after manager.Run returned
+	received := 0
+	for received < emitted {
+		select {
+		case <-out.c:
+			received++
+		case <-time.After(500 * time.Millisecond):
+			t.Fatalf("devices emitted %d Note Offs during shutdown, the output port received %d", emitted, received)
+		}
+	}
+}
